@@ -1,7 +1,339 @@
-// correspondence + search binary for property C10 (stub)
+// C10 — sampled trees are external-sampling trees of the legal abstract game.
+//
+// Trees are sampled by the real Blueprint::tree over training epochs (alternating traverser,
+// evolving profile, stand-in abstraction, hooks H2/H4/H5/H6) and
+//  (a) dumped verbatim (node records with full game state, bucket, payoffs) for the Lean acceptor
+//      `RP.TreeShape.acceptTree`:   tree <walker> <n> <node>*   →   accept
+//      node = parent|- ; edge u8 ; s0 ; s1 ; pot ; board ; dealer ; ticker ; hist ; abs ; menu ; pay0 ; pay1
+//      seat = state(b|s|f),stack,stake,spent,hole
+//  (b) checked clause by clause by a search oracle written from the property text on top of the
+//      real Game API (independent of the Lean model).
+use robopoker::cards::hand::Hand;
+use robopoker::cards::hole::Hole;
+use robopoker::gameplay::action::Action;
+use robopoker::gameplay::game::Game;
+use robopoker::gameplay::ply::Turn;
+use robopoker::gameplay::seat::State;
+use robopoker::mccfr::blueprint::Blueprint;
+use robopoker::mccfr::bucket::Bucket;
+use robopoker::mccfr::counterfactual::Counterfactual;
+use robopoker::mccfr::edge::Edge;
+use robopoker::mccfr::encoder::Encoder;
+use robopoker::mccfr::info::Info;
+use robopoker::mccfr::odds::Odds;
+use robopoker::mccfr::partition::Partition;
+use robopoker::mccfr::player::Player;
+use robopoker::mccfr::profile::Profile;
+use robopoker::mccfr::tree::Tree;
+use robopoker::verif::{MAX_DEPTH_SUBGAME, MAX_RAISE_REPEATS, STACK};
+use rpharness::*;
+use std::collections::{BTreeMap, HashMap, HashSet};
+
+fn game_fields(g: &Game) -> String {
+    let seats = g.verif_seats();
+    let seat = |i: usize| {
+        let (st, stack, stake, spent, hole) = seats[i];
+        let st = match st {
+            State::Betting => 'b',
+            State::Shoving => 's',
+            State::Folding => 'f',
+        };
+        format!("{},{},{},{},{}", st, stack, stake, spent, u64::from(Hand::from(hole)))
+    };
+    format!("{};{};{};{};{};{}", seat(0), seat(1), g.pot(), u64::from(Hand::from(g.board())), g.verif_dealer(), g.verif_ticker())
+}
+
+fn same_game(a: &Game, b: &Game) -> bool {
+    game_fields(a) == game_fields(b)
+}
+
+fn is_aggro(e: &Edge) -> bool {
+    matches!(e, Edge::Raise(_) | Edge::Shove)
+}
+
+/// per-tree oracle + dump; returns the dump line (None if the tree is too big to dump)
+fn check_tree(run: &mut Run, rng: &mut Rng, tree: &Tree, profile: &Profile, known: &mut HashSet<Bucket>, label: &str, dump: bool) -> Option<String> {
+    let walker = tree.walker();
+    let nodes = tree.all();
+    let n = nodes.len();
+    let encoder = Encoder::default();
+    let widx = match walker {
+        Player(Turn::Choice(x)) => x,
+        _ => 9,
+    };
+    let mut line = format!("tree {} {}", widx, n);
+    let mut hist: Vec<Vec<Edge>> = vec![vec![]; n];
+    let mut groups: HashMap<Bucket, (Vec<Edge>, Vec<Edge>, u64)> = HashMap::new();
+    let mut fresh: Vec<(Bucket, Vec<Edge>)> = vec![];
+    let mut seen_here: HashSet<Bucket> = HashSet::new();
+    for (i, node) in nodes.iter().enumerate() {
+        run.evaluations += 1;
+        let game = node.data().game();
+        let at = format!("{label} node {i}");
+        // history (own walk)
+        if let (Some(p), Some(e)) = (node.parent(), node.incoming()) {
+            let pi = p.index().index();
+            if pi >= i {
+                run.fail("parent-not-before-child", &at, "parent index < index", &format!("{pi}"));
+            }
+            hist[i] = hist[pi].clone();
+            hist[i].push(*e);
+            // ---- every child is the parent state after a permitted action
+            run.spec_checked += 1;
+            let pg = p.data().game();
+            let action = match e {
+                Edge::Draw => {
+                    let add = u64::from(Hand::from(game.board())) & !u64::from(Hand::from(pg.board()));
+                    Action::Draw(Hand::from(add))
+                }
+                e => pg.actionize(e),
+            };
+            if !pg.is_allowed(&action) {
+                run.fail("child-by-forbidden-action", &at, "an action permitted in the parent state", &format!("{action:?}"));
+            } else if !same_game(&pg.apply(action), game) {
+                run.fail("child-not-parent-after-action", &at, &game_fields(&pg.apply(action)), &game_fields(game));
+            }
+        } else if i != 0 {
+            run.fail("second-root", &at, "one root", "node without parent");
+        }
+        let children = node.children();
+        let mut kid_edges: Vec<Edge> = children.iter().map(|c| *c.incoming().unwrap()).collect();
+        kid_edges.sort();
+        let bucket = node.bucket().clone();
+        let menu: Vec<Edge> = Vec::<Edge>::from(bucket.2.clone());
+        let mut menu_sorted = menu.clone();
+        menu_sorted.sort();
+        // ---- the menu is the legal abstract menu for the current betting round
+        run.spec_checked += 1;
+        let round: Vec<&Edge> = hist[i].iter().rev().take_while(|e| !matches!(e, Edge::Draw)).collect();
+        let n_aggro = round.iter().take(MAX_DEPTH_SUBGAME).filter(|e| is_aggro(e)).count();
+        let n_raise = round.iter().filter(|e| matches!(e, Edge::Raise(_))).count();
+        if n_raise > MAX_RAISE_REPEATS + 1 {
+            run.fail("raise-cap-exceeded", &at, &format!("at most {} raises in a betting round", MAX_RAISE_REPEATS + 1), &format!("{n_raise}"));
+        }
+        let want_menu = game.choices(n_aggro);
+        if want_menu != menu {
+            run.fail("menu-not-choices-of-round", &at, &format!("{want_menu:?}"), &format!("{menu:?}"));
+        }
+        // ---- children by player
+        run.spec_checked += 1;
+        match node.player() {
+            Player(Turn::Terminal) => {
+                if !children.is_empty() {
+                    run.fail("terminal-has-children", &at, "0", &format!("{}", children.len()));
+                }
+            }
+            p if p == walker => {
+                if kid_edges != menu_sorted {
+                    run.fail("walker-children-not-menu", &at, &format!("{menu_sorted:?}"), &format!("{kid_edges:?}"));
+                }
+                let mut dedup = kid_edges.clone();
+                dedup.dedup();
+                if dedup.len() != kid_edges.len() {
+                    run.fail("walker-action-twice", &at, "each action once", &format!("{kid_edges:?}"));
+                }
+            }
+            _ => {
+                if children.len() != 1 {
+                    run.fail("sampled-node-not-one-child", &at, "1", &format!("{}", children.len()));
+                } else if !menu.contains(&kid_edges[0]) {
+                    run.fail("sampled-child-off-menu", &at, &format!("{menu:?}"), &format!("{:?}", kid_edges[0]));
+                }
+            }
+        }
+        // ---- leaves are finished hands, zero-sum
+        let mut pay = (0i32, 0i32);
+        if children.is_empty() {
+            run.spec_checked += 1;
+            if game.turn() != Turn::Terminal {
+                run.fail("leaf-not-finished-hand", &at, "Terminal", &format!("{:?}", game.turn()));
+            } else {
+                match catch(std::panic::AssertUnwindSafe(|| game.settlements().iter().map(|s| s.pnl() as i32).collect::<Vec<_>>())) {
+                    Some(p) if p.len() == 2 => {
+                        pay = (p[0], p[1]);
+                        if p[0] + p[1] != 0 {
+                            run.fail("leaf-payoffs-not-zero-sum", &at, "0", &format!("{} + {}", p[0], p[1]));
+                        }
+                    }
+                    other => run.fail("leaf-settlement-fails", &at, "two payoffs", &format!("{other:?}")),
+                }
+            }
+        }
+        // ---- bucket = (recalled history, card bucket of (actor's hole, board), menu)
+        run.spec_checked += 1;
+        let recalled: Vec<Edge> = hist[i].iter().take(MAX_DEPTH_SUBGAME).copied().collect();
+        if Vec::<Edge>::from(bucket.0.clone()) != recalled {
+            run.fail("bucket-history-not-recalled-history", &at, &format!("{recalled:?}"), &format!("{:?}", Vec::<Edge>::from(bucket.0.clone())));
+        }
+        let abs = encoder.abstraction(game);
+        if abs != bucket.1 {
+            run.fail("bucket-abstraction-not-of-actor-cards", &at, &format!("{abs:?}"), &format!("{:?}", bucket.1));
+        }
+        let entry = groups.entry(bucket.clone()).or_insert((recalled.clone(), menu.clone(), u64::from(bucket.1)));
+        if entry.0 != recalled || entry.1 != menu || entry.2 != u64::from(bucket.1) {
+            run.fail("infoset-mixes-histories", &at, &format!("{:?}", entry.0), &format!("{recalled:?}"));
+        }
+        // ---- the card bucket ignores the opponent's cards (sampled nodes)
+        if i % 7 == 0 {
+            run.spec_checked += 1;
+            let seats = game.verif_seats();
+            let actor = u64::from(Hand::from(game.actor().cards()));
+            let ai = if u64::from(Hand::from(seats[0].4)) == actor { 0 } else { 1 };
+            let used = actor | u64::from(Hand::from(game.board()));
+            let other = rng.cards(2, u64::from(Hand::from(Hand::mask())) & !used);
+            let mut holes = [seats[0].4, seats[1].4];
+            holes[1 - ai] = Hole::from(Hand::from(other));
+            let g2 = game.clone().verif_with_holes(&holes);
+            let abs2 = encoder.abstraction(&g2);
+            if abs2 != abs {
+                run.fail("card-bucket-depends-on-opponent-cards", &at, &format!("{abs:?}"), &format!("{abs2:?}"));
+            }
+            run.count("opponent-cards-swapped");
+        }
+        // ---- fresh information sets start uniform
+        if !children.is_empty() && node.player() != Player::chance() && !known.contains(&bucket) && seen_here.insert(bucket.clone()) {
+            fresh.push((bucket.clone(), menu.clone()));
+        }
+        if dump {
+            let p = node.parent().map(|p| p.index().index().to_string()).unwrap_or("-".into());
+            let e = node.incoming().map(|e| u8::from(*e)).unwrap_or(0);
+            line.push_str(&format!(" {};{};{};{};{};{};{};{}", p, e, game_fields(game), u64::from(bucket.0), u64::from(bucket.1), u64::from(bucket.2), pay.0, pay.1));
+        }
+        let kind = match node.player() {
+            Player(Turn::Terminal) => "terminal",
+            Player(Turn::Chance) => "chance",
+            p if p == walker => "walker",
+            _ => "opponent",
+        };
+        run.count(&format!("node-{kind}"));
+        run.distinct(&(label, i));
+    }
+    for (bucket, menu) in fresh {
+        run.spec_checked += 1;
+        let n = menu.len();
+        for e in &menu {
+            match profile.verif_memory(&bucket, e) {
+                Some((r, p)) if r == 0.0 && p == 1.0 / n as f32 => {}
+                other => run.fail("fresh-infoset-not-uniform", &format!("{label} bucket {bucket}"), &format!("regret 0 policy 1/{n}"), &format!("{other:?}")),
+            }
+            let w = profile.weight(&bucket, e);
+            if (w - 1.0 / n as f32).abs() > 1e-6 {
+                run.fail("fresh-infoset-not-uniform", &format!("{label} bucket {bucket}"), &format!("weight 1/{n}"), &format!("{w}"));
+            }
+        }
+        run.count("fresh-infoset");
+        known.insert(bucket);
+    }
+    if dump { Some(line) } else { None }
+}
+
 fn main() {
-    let a = rpharness::args();
-    let mut run = rpharness::Run::new(&a.out);
-    run.rule = "stub".into();
+    let a = args();
+    let mut rng = Rng::new(a.seed);
+    let mut run = Run::new(&a.out);
+    quiet_panics();
+    let (epochs, batch, max_dump, freq_nodes, freq_draws) = if a.thorough() { (40usize, 6usize, 6000usize, 40usize, 4000usize) } else { (10, 3, 2500, 10, 1500) };
+    run.rule = format!(
+        "{epochs} training epochs x {batch} trees from the real Blueprint::tree (empty profile at start, stand-in abstraction, traverser alternating, profile updated as Blueprint::solve does); every node of every tree goes through the clause-by-clause oracle; trees up to {max_dump} nodes are dumped for the Lean acceptor; opponent sampling: {freq_nodes} opponent nodes x {freq_draws} epochs through the real explore_one, chi-square 6 sigma; actionize's f32 product checked for every pot <= 2*STACK x every grid odds. distinct = (tree, node)"
+    );
+    // ---- the f32 product in Game::actionize equals floor(pot*num/den) (model assumption)
+    for pot in 0..=(2 * STACK as i32) {
+        for o in Odds::GRID.iter() {
+            run.spec_checked += 1;
+            let real = (pot as f32 * f32::from(*o)) as i16;
+            let want = (pot * o.0 as i32 / o.1 as i32) as i16;
+            if real != want {
+                run.fail("actionize-f32-product-not-floor", &format!("pot {pot} odds {}:{}", o.0, o.1), &format!("{want}"), &format!("{real}"));
+            }
+        }
+    }
+    let bp = Blueprint::verif_new(Profile::default(), Encoder::default());
+    let profile = bp.verif_profile();
+    let mut known: HashSet<Bucket> = HashSet::new();
+    let mut tree_no = 0;
+    let mut freq_done = 0usize;
+    for epoch in 0..epochs {
+        let mut cfs: Vec<Counterfactual> = vec![];
+        for _ in 0..batch {
+            tree_no += 1;
+            if tree_no % 3 == 0 {
+                robopoker::verif::set_draw_index(Some(rng.below(52) as u8));
+            }
+            let tree = bp.verif_tree();
+            robopoker::verif::set_draw_index(None);
+            let n = tree.all().len();
+            let label = format!("epoch {epoch} tree {tree_no}");
+            let dump = n <= max_dump;
+            let line = { check_tree(&mut run, &mut rng, &tree, &profile.read().unwrap(), &mut known, &label, dump) };
+            if let Some(line) = line {
+                run.line(&line, "accept");
+                run.count("tree-dumped");
+            }
+            run.count(&format!("tree-nodes<={}", match n { 0..=99 => 99, 100..=999 => 999, 1000..=2999 => 2999, _ => 99999 }));
+            run.count(&format!("walker=P{}", epoch % 2));
+            // ---- opponent sampling frequencies at fixed buckets vs Profile::weight
+            if freq_done < freq_nodes && epoch >= 2 {
+                let walker = tree.walker();
+                let cands: Vec<usize> = tree.all().iter().enumerate()
+                    .filter(|(_, nd)| matches!(nd.player(), Player(Turn::Choice(_))) && nd.player() != walker && nd.children().len() == 1)
+                    .map(|(i, _)| i).collect();
+                if !cands.is_empty() {
+                    let i = cands[rng.below(cands.len() as u64) as usize];
+                    let nodes = tree.all();
+                    let node = &nodes[i];
+                    let encoder = Encoder::default();
+                    // a private profile holding only this bucket, with the real weights copied
+                    let mut p2 = Profile::default();
+                    let menu: Vec<Edge> = Vec::<Edge>::from(node.bucket().2.clone());
+                    {
+                        let real = profile.read().unwrap();
+                        for e in &menu {
+                            let (r, pol) = real.verif_memory(node.bucket(), e).expect("witnessed");
+                            p2.verif_set_memory(node.bucket(), e, r, pol);
+                        }
+                    }
+                    let weights: Vec<f64> = menu.iter().map(|e| p2.weight(node.bucket(), e) as f64).collect();
+                    let mut hist: BTreeMap<Edge, u64> = BTreeMap::new();
+                    for t in 0..freq_draws {
+                        p2.verif_set_epochs(1000 + t);
+                        let chosen = p2.explore_one(encoder.branches(node), node);
+                        run.evaluations += 1;
+                        if chosen.len() != 1 {
+                            run.fail("explore-one-not-one", &format!("{label} node {i}"), "1", &format!("{}", chosen.len()));
+                            continue;
+                        }
+                        *hist.entry(*chosen[0].edge()).or_insert(0) += 1;
+                    }
+                    run.spec_checked += 1;
+                    let t = freq_draws as f64;
+                    for (e, w) in menu.iter().zip(&weights) {
+                        let cnt = *hist.get(e).unwrap_or(&0) as f64;
+                        let sigma = (t * w * (1.0 - w)).sqrt().max(1.0);
+                        if (cnt - t * w).abs() > 6.0 * sigma {
+                            run.fail("opponent-not-sampled-by-weight", &format!("{label} node {i} edge {e} weight {w}"), &format!("about {:.0} of {t}", t * w), &format!("{cnt}"));
+                        }
+                    }
+                    let extra: u64 = hist.iter().filter(|(e, _)| !menu.contains(e)).map(|(_, c)| *c).sum();
+                    if extra > 0 {
+                        run.fail("opponent-sampled-off-menu", &format!("{label} node {i}"), "0", &format!("{extra}"));
+                    }
+                    run.count(&format!("frequency-test-menu-size={}", menu.len()));
+                    freq_done += 1;
+                }
+            }
+            let infos: Vec<Info> = Partition::from(tree).into();
+            for info in infos {
+                cfs.push(profile.read().unwrap().counterfactual(info));
+            }
+        }
+        let mut p = profile.write().unwrap();
+        for cf in cfs {
+            let bucket = cf.info().node().bucket().clone();
+            p.add_regret(&bucket, cf.regret());
+            p.add_policy(&bucket, cf.policy());
+        }
+        p.next();
+    }
+    run.notes.push("deals come from the code's own thread_rng (every third tree: forced draw index from VERIF_SEED); each dumped tree is self-contained in ops.txt".into());
     run.finish();
 }
